@@ -123,8 +123,17 @@ def h_lao(sk, rand_actions, rand_next, slack_mode, gamma='sym'):
             hval[s] = W[s] + S.real('slack_%s' % (s,), 0, None)
     uses = []
     with facades(uses, 80):
+        # the model hands out one shared LIST object per distinct action set: a planner must not reorder the model's own lists in place
+        shared_lists = {}
+        base_actions = mdp.actions
+
+        def actions_as_shared_lists(s_):
+            t_ = tuple(base_actions(s_))
+            return shared_lists.setdefault(t_, list(t_))
+        mdp.actions = actions_as_shared_lists
         planner = lao.LAOStar(heuristic=lambda s: hval[s], randomize_action_order=rand_actions, randomize_nextstate_order=rand_next, seed=13)
         res = planner.plan_on(mdp)
+        S.check('frame:the-action-lists-handed-out-by-the-model-are-not-reordered-in-place', S.truth(all(tuple(l_) == t_ for t_, l_ in shared_lists.items())))
         S.check('LAO*:reports-convergence', S.truth(res.converged is True))
         S.check('LAO*:initial-value-is-the-optimal-value-of-the-initial-distribution', S.eq(res.initial_value, S.Sum(v.p0[s] * W[s] for s in sk.init)))
         S.check('LAO*:every-held-value-is-an-upper-bound-on-the-optimal-value', S.And([S.le(W[s], x) for s, x in res.state_value_map.items()]))
